@@ -2352,14 +2352,17 @@ impl<I: SignedInteger> Subframe<I> {
             for split in coefficients.len()..channel.len() {
                 let (predicted, residuals) = channel.split_at_mut(split);
 
-                residuals[0] += I::from_i64(
-                    predicted
-                        .iter()
-                        .rev()
-                        .zip(coefficients)
-                        .map(|(x, y)| (*x).into() * y)
-                        .sum::<i64>()
-                        >> qlp_shift,
+                // a corrupt residual must not abort the expansion: add in 64 bits, wrap like the decoder
+                residuals[0] = I::from_i64(
+                    Into::<i64>::into(residuals[0]).wrapping_add(
+                        predicted
+                            .iter()
+                            .rev()
+                            .zip(coefficients)
+                            .map(|(x, y)| (*x).into() * y)
+                            .sum::<i64>()
+                            >> qlp_shift,
+                    ),
                 );
             }
         }
